@@ -185,6 +185,15 @@ pub const NUM_BITS: &[u64] = &[
     0x41F0_0000_0000_0000, // 4294967296.0
     0x4200_0000_0000_0000, // 2^33
     0xC000_0000_0000_0000, // -2.0
+    // numbers whose big-endian bytes look like other AMF0 structures (marker bytes, lengths)
+    0x0200_0361_6263_0505, // 02 00 03 'a' 'b' 'c' 05 05
+    0x0300_0161_0500_0009, // 03 00 01 'a' 05 00 00 09
+    0x0A00_0000_0105_0505, // 0A 00 00 00 01 05 ...
+    0x0800_0000_0000_0009,
+    0x0500_0000_0000_0000,
+    0x0900_0000_0000_0000,
+    0x0000_0900_0000_0000,
+    0x0100_0000_0000_0000,
 ];
 
 pub fn amf_number_bits() -> BoxedStrategy<u64> {
@@ -259,7 +268,7 @@ pub fn amf_value(cfg: AmfCfg) -> BoxedStrategy<V> {
         // wide containers: element / property counts around powers of two and beyond 65535
         let wide_n = prop_oneof![pick(&[255u32, 256, 257, 1023, 1024, 1025, 4095, 4096, 4097, 65_535, 65_536, 70_000]), 258u32..3000];
         let wide = prop_oneof![
-            2 => (prop_oneof![Just(V::Null), amf_number_bits().prop_map(V::Num), Just(V::Str(S::lit("ab"))), Just(V::Arr(vec![]))], wide_n.clone()).prop_map(|(v, n)| V::ArrRep(Box::new(v), n)),
+            2 => (prop_oneof![Just(V::Null), amf_number_bits().prop_map(V::Num), Just(V::Str(S::lit("ab"))), Just(V::Arr(vec![])), Just(V::Obj(vec![])), Just(V::Obj(vec![(S::lit("k"), V::Obj(vec![]))]))], wide_n.clone()).prop_map(|(v, n)| V::ArrRep(Box::new(v), n)),
             1 => (pick(&["p", "key_", "é"]), wide_n).prop_map(|(p, n)| V::ObjRep(S::lit(p), n.min(5_000))),
         ];
         if wire {
@@ -267,8 +276,19 @@ pub fn amf_value(cfg: AmfCfg) -> BoxedStrategy<V> {
                 1 => wide,
                 18 => pairs.clone().prop_map(V::Obj),
                 12 => proptest::collection::vec(inner.clone(), 0..4).prop_map(V::Arr),
-                18 => (pairs, prop_oneof![Just(None), Just(Some(0u32)), Just(Some(u32::MAX)), any::<u32>().prop_map(Some)])
-                    .prop_map(|(p, c)| { let n = p.len() as u32; V::Ecma(c.unwrap_or(n), p) }),
+                // the count field is informative only: exact, zero, huge, random, and off by a little
+                // in both directions (a decoder that honours a too-small count loses pairs)
+                18 => (pairs, prop_oneof![3 => Just(0i64), 1 => Just(i64::MIN), 1 => Just(i64::MAX), 1 => any::<u32>().prop_map(|x| x as i64 + 1_000_000), 3 => -3i64..4])
+                    .prop_map(|(p, c)| {
+                        let n = p.len() as i64;
+                        let count = match c {
+                            i64::MIN => 0,
+                            i64::MAX => u32::MAX,
+                            x if x >= 1_000_000 => (x - 1_000_000) as u32,
+                            x => (n + x).clamp(0, u32::MAX as i64) as u32,
+                        };
+                        V::Ecma(count, p)
+                    }),
             ]
             .boxed()
         } else {
@@ -547,6 +567,38 @@ pub fn foreign_ops(max_ops: usize, chunk_change_pct: u8, len_cap: u32) -> BoxedS
                     len: len.resolve(cs, len_cap),
                     fill,
                 }));
+            }
+            ops
+        })
+        .boxed()
+}
+
+
+/// Many distinct chunk streams: `n` format-0 messages on `n` different csids, then compressed
+/// follow-ups on a sample of the OLDER ones (per-chunk-stream header state must survive any
+/// number of other chunk streams; tables with 64 / 256 / 1024 / 4096 entries are plausible
+/// implementation limits).
+pub fn foreign_ops_many_streams() -> BoxedStrategy<Vec<FOp>> {
+    (
+        pick(&[63u32, 64, 65, 66, 100, 255, 256, 257, 1023, 1024, 1025, 4097]),
+        prop_oneof![Just(1u32), Just(2u32), 3u32..16],
+        proptest::collection::vec(any::<u16>(), 1..8),
+        pick(&[0u32, 1, 20, 0xFF_FFFF]),
+        0u32..40,
+        any::<bool>(),
+    )
+        .prop_map(|(n, stride, revisit, dts, len, again)| {
+            let csid_of = |i: u32| 2 + (i * stride) % 65_598;
+            let mut ops = Vec::new();
+            for i in 0..n {
+                ops.push(FOp::Msg(FMsg { csid: csid_of(i), want_fmt: 0, three_byte: false, fmt0_cont: false, type_id: 8 + (i % 2) as u8, msid: 1, dts: dts.wrapping_add(i), len, fill: i }));
+            }
+            let rounds = if again { 2 } else { 1 };
+            for r in 0..rounds {
+                for (k, f) in revisit.iter().enumerate() {
+                    let i = ((*f as u64 * n as u64) >> 16) as u32;
+                    ops.push(FOp::Msg(FMsg { csid: csid_of(i), want_fmt: 3, three_byte: false, fmt0_cont: false, type_id: 8 + (i % 2) as u8, msid: 1, dts: dts.wrapping_add(i), len, fill: 7000 + k as u32 + r }));
+                }
             }
             ops
         })
